@@ -1,7 +1,7 @@
 (* Property C06 (static half): soundness of the ownership / definedness validator.
    Only theorem statements closed by `exact`, each followed by Print Assumptions. *)
 From Coq Require Import PArith List Bool FMapPositive.
-From C06 Require Import IR Checker Proofs Statement.
+From C06 Require Import IR Checker Proofs Statement AttrDef ProofsAttr.
 Import ListNotations.
 
 (* If the validator accepts a function, then on every path (any length) from its entry nothing goes wrong:
@@ -21,9 +21,40 @@ Theorem validator_is_sound : validator_sound.
 Proof. exact check_func_sound. Qed.
 Print Assumptions validator_is_sound.
 
+(* borrowed-reference lifetime is part of [violates]: reading a value borrowed from w after w released its
+   last reference is a violation of the concrete semantics (hence excluded by checker_sound) *)
+Theorem use_after_owner_release_violates : forall s w v s' oc,
+  s w = CObj 1 BNone -> s v = CObj 0 (BFrom w) -> v <> w ->
+  cmicro (MDec w false) oc s = Next s' -> cmicro (MRead v) oc s' = Viol.
+Proof. exact use_after_owner_release_is_violation. Qed.
+Print Assumptions use_after_owner_release_violates.
+
+(* Always-defined attributes: if the check accepts (claimed set, defaults, abstracted __init__), then on every
+   path of __init__ no attribute claimed always-defined is read, or visible to code that self leaked to
+   (incl. the caller at Return), before it was assigned. *)
+Theorem always_defined_check_sound : forall c fuel, acheck c fuel = true ->
+  forall x0 x, ainitial c x0 -> asteps c x0 x -> ~ aviolates c x.
+Proof. exact acheck_sound. Qed.
+Print Assumptions always_defined_check_sound.
+
+(* x, y assigned on both branches, z only on one; self leaks afterwards *)
+Definition ex_cls (claim : list attr) : cls := mk_cls
+  [ (1, mk_ablock [ASet 1] (ABranch 2 3));
+    (2, mk_ablock [ASet 2] (AGoto 4));
+    (3, mk_ablock [ASet 2; ASet 3] (AGoto 4));
+    (4, mk_ablock [ARead 1; ALeak] AReturn) ]%positive claim [].
+Example ex_cls_accepted : acheck (ex_cls [1; 2]%positive) 100 = true.
+Proof. vm_compute. reflexivity. Qed.
+Example ex_cls_rejected : acheck (ex_cls [1; 2; 3]%positive) 100 = false.
+Proof. vm_compute. reflexivity. Qed.
+
 (* ---- examples -------------------------------------------------------------------------------- *)
 Definition O (k : opkind) (d : option val) (rc bor mn fl : bool) (src st : list val) : op :=
-  {| okind := k; odest := d; orc := rc; oborrowed := bor; omaynull := mn; oflag := fl; osrcs := src; ostolen := st |}.
+  {| okind := k; odest := d; orc := rc; oborrowed := bor; omaynull := mn; oflag := fl; osrcs := src; ostolen := st;
+     oowner := None |}.
+Definition OB (d : val) (src : list val) (w : val) : op :=     (* borrowed refcounted result, borrowed from w *)
+  {| okind := KOther; odest := Some d; orc := true; oborrowed := true; omaynull := false; oflag := false;
+     osrcs := src; ostolen := []; oowner := Some w |}.
 
 (* def f(x): r2 = g(x) [may fail]; if is_error(r2) goto L3 else L2;  L2: dec_ref r2; return 1
                                                                      L3: r3 = <error>; return r3       *)
@@ -72,20 +103,45 @@ Definition ex_loop_leak : func := mk_func
 Example ex_loop_leak_rejected : check_func ex_loop_leak 100 = Reject 3%positive 2 5 1%positive.
 Proof. vm_compute. reflexivity. Qed.
 
+(* borrowed-reference lifetime: r2 = g() owned; r3 = borrow r2.attr; use r3; dec_ref r2  -- accepted *)
+Definition ex_borrow_ok : func := mk_func
+  [ (1, mk_block [O KOther (Some 2) true false false false [] []; OB 3 [2] 2;
+                  O KOther None false false false false [3] [];
+                  O KDecRef None false false false false [2] []] (TReturn None false)) ]%positive [].
+Example ex_borrow_ok_accepted : check_func ex_borrow_ok 100 = Accept.
+Proof. vm_compute. reflexivity. Qed.
+
+(* ... dec_ref r2 BEFORE the use of r3: use after the owner's last release, code 1 *)
+Definition ex_borrow_bad : func := mk_func
+  [ (1, mk_block [O KOther (Some 2) true false false false [] []; OB 3 [2] 2;
+                  O KDecRef None false false false false [2] [];
+                  O KOther None false false false false [3] []] (TReturn None false)) ]%positive [].
+Example ex_borrow_bad_rejected : check_func ex_borrow_bad 100 = Reject 1%positive 4 1 3%positive.
+Proof. vm_compute. reflexivity. Qed.
+
+(* the owner's reference moves to a register (x = r2): the borrower follows it and stays usable *)
+Definition ex_borrow_move : func := mk_func
+  [ (1, mk_block [O KOther (Some 2) true false false false [] []; OB 3 [2] 2;
+                  O KAssign (Some 4) true false false false [2] [2];
+                  O KOther None false false false false [3] [];
+                  O KDecRef None false false false false [4] []] (TReturn None false)) ]%positive [].
+Example ex_borrow_move_accepted : check_func ex_borrow_move 100 = Accept.
+Proof. vm_compute. reflexivity. Qed.
+
 (* non-vacuity of the hypotheses of checker_sound: an accepted function, an initial configuration, a step *)
 Example hypotheses_satisfiable :
   check_func ex_ok 100 = Accept /\
   exists c0 c1, initial_config ex_ok c0 /\ steps ex_ok c0 c1 /\ crest c1 = [] /\ ~ violates ex_ok c1.
 Proof.
   split; [vm_compute; reflexivity|].
-  pose (s0 := fun v : val => if Pos.eqb v 1 then CObj 0 true else CUninit).
-  assert (I0 : initial_config ex_ok (Cfg [MRead 1%positive; MDef 2%positive true true]
+  pose (s0 := fun v : val => if Pos.eqb v 1 then CObj 0 BAlways else CUninit).
+  assert (I0 : initial_config ex_ok (Cfg [MRead 1%positive; MDef 2%positive true true None]
                                          (TBranch BIsError (Some 2%positive) false 3%positive 2%positive) s0)).
-  { exists {| bops := [MRead 1%positive; MDef 2%positive true true];
+  { exists {| bops := [MRead 1%positive; MDef 2%positive true true None];
                bterm := TBranch BIsError (Some 2%positive) false 3%positive 2%positive |}.
     split; [vm_compute; reflexivity|]. split; [reflexivity|]. split; [reflexivity|].
     unfold initial_state. intro v. unfold s0, arg_ok. destruct v; cbn; auto. }
-  assert (ST : steps ex_ok (Cfg [MRead 1%positive; MDef 2%positive true true]
+  assert (ST : steps ex_ok (Cfg [MRead 1%positive; MDef 2%positive true true None]
                                 (TBranch BIsError (Some 2%positive) false 3%positive 2%positive) s0)
                            (Cfg [] (TBranch BIsError (Some 2%positive) false 3%positive 2%positive)
                                 (cset 2%positive (CNull false) s0))).
